@@ -269,7 +269,7 @@ static enum DeviceState vstore_append(struct Storage* s, const struct VideoFrame
     int k = d->appends_in_run++;
     logcall(d, VC_APPEND, (int)*nbytes); monitor(d, VC_APPEND);
     if (cfg->append_ms > 0) vs_sleep_ms(cfg->append_ms);
-    if (cfg->fail_append_at == k) { vs_event(41); d->started = 0; /* a storage that fails leaves the running state by itself */ return DeviceState_AwaitingConfiguration; }
+    if (cfg->fail_append_at == k) { vs_event(41); d->started = 0; d->self_stops++; /* a storage that fails leaves the running state by itself */ return DeviceState_AwaitingConfiguration; }
     const uint8_t* beg = (const uint8_t*)frames;
     const uint8_t* end = beg + *nbytes;
     char msg[400];
